@@ -149,6 +149,16 @@ def _no_null(v):
         return {str(k): _no_null(x) for k, x in v.items()}
     if isinstance(v, (list, tuple)):
         return [_no_null(x) for x in v]
+    if isinstance(v, (bool, int, float, str)):
+        return v if type(v) in (bool, int, float, str) else (bool(v) if isinstance(v, bool) else int(v) if isinstance(v, int) else float(v) if isinstance(v, float) else str(v))
+    # numpy scalars and other number-like values a library under test may hand back: plain Python numbers in the trace
+    import numbers
+    if isinstance(v, numbers.Integral):
+        return int(v)
+    if isinstance(v, numbers.Real):
+        return float(v)
+    if hasattr(v, "tolist"):
+        return _no_null(v.tolist())
     return v
 
 
